@@ -641,7 +641,10 @@ impl RADAU {
                 let r = cont[i] / scal[i];
                 err += r * r;
             }
-            err = (err / n as Float).sqrt().max(1e-10);
+            err = (err / n as Float).sqrt();
+            if err < 1e-10 {
+                err = 1e-10;
+            }
 
             // Optional refinement on first/rejected step
             if err >= 1.0 && (first || reject) {
@@ -663,7 +666,10 @@ impl RADAU {
                     let r = cont[i] / scal[i];
                     err += r * r;
                 }
-                err = (err / n as Float).sqrt().max(1e-10);
+                err = (err / n as Float).sqrt();
+                if err < 1e-10 {
+                    err = 1e-10;
+                }
             }
 
             // --- Computation of hnew ---
